@@ -3,6 +3,7 @@ package main
 import (
 	"encoding/json"
 	"fmt"
+	"os"
 
 	"verif/harness/sim"
 	"verif/harness/storechk"
@@ -39,7 +40,7 @@ func runC12(c *Ctx) {
 		}
 		c.Res.Cases++
 		rep := &caseReporter{c: c, caseID: fmt.Sprintf("m%d", i), replay: h}
-		storechk.RunC12(&h, rep)
+		storechk.RunC12On(&h, rep, i%16 == 7)
 		bz, _ := json.Marshal(h)
 		if len(h.Commits) > 3 {
 			c.Nontrivial(string(bz))
@@ -113,6 +114,35 @@ func runC13(c *Ctx) {
 			c.Nontrivial(string(bz))
 		}
 		c.Sample(map[string]interface{}{"stores": h.NStores, "pruning": h.Pruning, "commits": len(h.Commits), "crash_points_enumerated": pts})
+	}
+	// the same judgement with real process death on a real on-disk database (GoLevelDB): a child process is
+	// killed by SIGKILL right before a PRNG-chosen durable write of a PRNG-chosen Commit
+	nd := 48
+	if !c.Quick() {
+		nd = 16 * 60
+	}
+	exe, err := os.Executable()
+	if err != nil {
+		c.Res.Inconcl = append(c.Res.Inconcl, "os.Executable: "+err.Error())
+		return
+	}
+	dm := sim.NewRand(c.Seed ^ hashStr("C13disk"))
+	for i := 0; i < nd; i++ {
+		r := dm.Split(uint64(i))
+		if !c.Mine(i) {
+			continue
+		}
+		h := storechk.GenMSHist(r, true)
+		if len(h.Commits) > 10 {
+			h.Commits = h.Commits[:10]
+		}
+		h.Reload = nil
+		c.Res.Cases++
+		rep := &caseReporter{c: c, caseID: fmt.Sprintf("d%d", i), replay: h}
+		pts := storechk.RunC13Disk(&h, r, exe, 5, rep)
+		if pts > 0 {
+			c.Nontrivial(fmt.Sprintf("disk-%d", i))
+		}
 	}
 }
 
@@ -241,7 +271,7 @@ func runC15(c *Ctx) {
 func replayC15(c *Ctx, raw json.RawMessage) {
 	var x struct {
 		Multi      *storechk.CMProg `json:"cachemulti"`
-		Program    *storechk.CProg `json:"program"`
+		Program    *storechk.CProg  `json:"program"`
 		Concurrent *struct {
 			Seed       uint64 `json:"seed"`
 			Goroutines int    `json:"goroutines"`
